@@ -67,8 +67,17 @@ def gen_case(rng, tier):
         labels['kk_1'] = stmts[-1]['e'][1]
     for i in range(n):
         r = rng.random()
-        if r < 0.12:
-            nm = f'lab_{i}'
+        if r < 0.16:
+            if any(k.startswith('lab_') for k in labels) and rng.random() < 0.5:
+                # a local label: the same name (hence the same expression text) means something else in every region
+                nm = rng.choice(['.loc_0', '.loc_1'])
+                if nm in labels:
+                    continue
+                flags.add('local-label')
+            else:
+                nm = f'lab_{i}'
+                for k in [k for k in labels if k.startswith('.')]:
+                    del labels[k]
             stmts.append({'k': 'label', 'name': nm})
             labels[nm] = cur
         elif r < 0.45:
@@ -86,7 +95,10 @@ def gen_case(rng, tier):
                     flags.add('oversized')
                 else:
                     v = rng.randint(0, (1 << (8 * w)) - 1)
-                if rng.random() < 0.2:
+                loc = [k for k in labels if k.startswith('.')]
+                if loc and rng.random() < 0.5:
+                    vals.append(('label', rng.choice(loc)))
+                elif rng.random() < 0.2:
                     vals.append(('label', rng.choice(list(labels) + ['end_lbl'])))
                 else:
                     vals.append(P.simple_expr(rng, v, list(labels), labels))
@@ -125,6 +137,14 @@ def gen_case(rng, tier):
             stmts.append({'k': 'zerountil', 'a': ('num', t)})
             flags.add('zerountil')
             cur = max(cur, t + 1)
+    if rng.random() < 0.15:
+        # twin regions: the same local name, hence the same value text, denotes a different address in each
+        w = rng.choice([1, 2, 4])
+        e = rng.choice([('label', '.twin'), ('bin', '+', ('label', '.twin'), ('num', 1))])
+        for nm in ('lab_ta', 'lab_tb'):
+            stmts += [{'k': 'label', 'name': nm}, {'k': 'fill', 'cnt': ('num', rng.randint(0, 3)), 'val': ('num', 7)},
+                      {'k': 'label', 'name': '.twin'}, {'k': 'data', 'w': w, 'vals': [e]}]
+        flags.add('twin-regions')
     stmts.append({'k': 'label', 'name': 'end_lbl'})
     return {'cfg': cfg, 'files': [stmts], 'start': 0, 'end': None, 'fill': 0xEE, 'seed': rng.randrange(1 << 30),
             'flags': sorted(flags)}
